@@ -518,6 +518,37 @@ def c20() -> List[M]:
     ]
 
 
+def c17() -> List[M]:
+    return [
+        M("C17", "voltage-encoder-scale", S, "    return int.to_bytes(int(float(value) * 10), length=2, byteorder=\"big\", signed=False)\n\n\ndef read_current", "    return int.to_bytes(int(float(value) * 100), length=2, byteorder=\"big\", signed=False)\n\n\ndef read_current", "C17.R1"),
+        M("C17", "current-encoder-signed", S, "def encode_current(value: Any) -> bytes:\n    \"\"\"Encode current value to raw (2 unsigned bytes) payload\"\"\"\n    return int.to_bytes(int(float(value) * 10), length=2, byteorder=\"big\", signed=False)",
+          "def encode_current(value: Any) -> bytes:\n    \"\"\"Encode current value to raw (2 unsigned bytes) payload\"\"\"\n    return int.to_bytes(int(float(value) * 10), length=2, byteorder=\"big\", signed=True)", "C17.R1"),
+        M("C17", "integer-encoder-4-bytes", S, "        return int.to_bytes(int(value), length=2, byteorder=\"big\", signed=False)", "        return int.to_bytes(int(value), length=4, byteorder=\"big\", signed=False)", "C17.R1"),
+        M("C17", "long-encoder-little-endian", S, "        return int.to_bytes(int(value), length=4, byteorder=\"big\", signed=False)", "        return int.to_bytes(int(value), length=4, byteorder=\"little\", signed=False)", "C17.R1"),
+        M("C17", "decimal-encoder-divides", S, "        return int.to_bytes(int(float(value) * self.scale), length=2, byteorder=\"big\", signed=True)", "        return int.to_bytes(int(float(value) / self.scale), length=2, byteorder=\"big\", signed=True)", "C17.R1"),
+        M("C17", "byteh-encoder-writes-low-byte", S, "        word = bytearray(register_value)\n        word[0] = int.to_bytes(int(value), length=1, byteorder=\"big\", signed=True)[0]", "        word = bytearray(register_value)\n        word[1] = int.to_bytes(int(value), length=1, byteorder=\"big\", signed=True)[0]", "C17.R1"),
+        M("C17", "byteh-encoder-drops-other-half", S, "        word = bytearray(register_value)\n        word[0] = int.to_bytes(int(value), length=1, byteorder=\"big\", signed=True)[0]", "        word = bytearray(2)\n        word[0] = int.to_bytes(int(value), length=1, byteorder=\"big\", signed=True)[0]", "C17.R1"),
+        M("C17", "timestamp-encoder-swaps-day-month", S, "        timestamp.month,\n        timestamp.day,", "        timestamp.day,\n        timestamp.month,", "C17.R1"),
+        M("C17", "timestamp-encoder-year-offset", S, "        timestamp.year - 2000,", "        timestamp.year - 1900,", "C17.R1"),
+        M("C17", "ecomode-v1-encoder-wrong-length", S, "        if isinstance(value, bytes) and len(value) == 8:", "        if isinstance(value, bytes) and len(value) == 12:", "C17.R1"),
+        M("C17", "schedule-encoder-skips-validation", S, "        if isinstance(value, bytes) and len(value) == 12:\n            # try to read_value to check if values are valid\n            if self.read_value(ProtocolResponse(value, None)):\n                return value",
+          "        if isinstance(value, bytes) and len(value) == 12:\n            return value", "C17.R1"),
+        M("C17", "benign-voltage-encoder-commuted", S, "    return int.to_bytes(int(float(value) * 10), length=2, byteorder=\"big\", signed=False)\n\n\ndef read_current", "    return int.to_bytes(int(10 * float(value)), length=2, byteorder=\"big\", signed=False)\n\n\ndef read_current", "clean"),
+        M("C17", "et-writes-next-register", ET, "            await self._read_from_socket(self._write_command(setting.offset, value))\n        else:\n            await self._read_from_socket(self._write_multi_command(setting.offset, raw_value))",
+          "            await self._read_from_socket(self._write_command(setting.offset + 1, value))\n        else:\n            await self._read_from_socket(self._write_multi_command(setting.offset, raw_value))", "C17.R2"),
+        M("C17", "et-long-value-single-write", ET, "        if len(raw_value) <= 2:\n            value = int.from_bytes(raw_value, byteorder=\"big\", signed=True)\n            await self._read_from_socket(self._write_command(setting.offset, value))",
+          "        if len(raw_value) > 2:\n            value = int.from_bytes(raw_value, byteorder=\"big\", signed=True)\n            await self._read_from_socket(self._write_command(setting.offset, value))", "C17.R2"),
+        M("C17", "dt-multi-write-truncated", DT, "            await self._read_from_socket(self._write_multi_command(setting.offset, raw_value))", "            await self._read_from_socket(self._write_multi_command(setting.offset, raw_value[0:2]))", "C17.R2"),
+        M("C17", "dt-writes-twice", DT, "            await self._read_from_socket(self._write_multi_command(setting.offset, raw_value))", "            await self._read_from_socket(self._write_multi_command(setting.offset, raw_value))\n            await self._read_from_socket(self._write_multi_command(setting.offset, raw_value))", "C17.R2"),
+        M("C17", "et-rmw-reads-wrong-half-source", ET, "            raw_value = setting.encode_value(value, response.response_data()[0:2])", "            raw_value = setting.encode_value(value, response.response_data()[2:4])", "C17.R2"),
+        M("C17", "et-rmw-skipped", ET, "        if setting.size_ == 1:\n            # modbus can address/store only 16 bit values, read the other 8 bytes\n            response = await self._read_from_socket(self._read_command(setting.offset, 1))\n            raw_value = setting.encode_value(value, response.response_data()[0:2])\n        else:\n            raw_value = setting.encode_value(value)",
+          "        raw_value = setting.encode_value(value, b'\\x00\\x00')", "C17.R2"),
+        M("C17", "es-write-routing-inverted", ES, "            if self._is_modbus_setting(setting):\n                await self._read_from_socket(self._write_command(setting.offset, value))\n            else:\n                await self._read_from_socket(Aa55WriteCommand(setting.offset, value))",
+          "            if not self._is_modbus_setting(setting):\n                await self._read_from_socket(self._write_command(setting.offset, value))\n            else:\n                await self._read_from_socket(Aa55WriteCommand(setting.offset, value))", "C17.R2"),
+        M("C17", "es-single-value-unsigned", ES, "            value = int.from_bytes(raw_value, byteorder=\"big\", signed=True)", "            value = int.from_bytes(raw_value, byteorder=\"big\", signed=False)", "C17.R2"),
+    ]
+
+
 def corpus() -> List[M]:
     out: List[M] = []
     for name, fn in sorted(globals().items()):
